@@ -26,6 +26,8 @@ def generate(tier, seed, shard, nshards):
         d = G.random_network(rng, max_nodes=6, max_branches=11, n_sources=rng.choice([1, 2, 2, 3, 3, 4]))
         r = rng.uniform(0.1, 10)
         a = cmath.rect(r, rng.uniform(-math.pi, math.pi)) if rng.random() < 0.7 else complex(rng.choice([-1.0, 2.0, -0.5, 1j]))
+        if rng.random() < 0.2:
+            a = a * rng.choice([1e-9, 1e-12, 1e-6, 1e7])        # nano- and mega-scale excitations
         yield {'net': d, 'a': [a.real, a.imag], 'split': rng.random()}
 
 
